@@ -79,7 +79,15 @@ func (m *HookMux) RoundTrip(req *http.Request) (*http.Response, error) {
 	}
 	c := &HookCall{Path: req.URL.Path, Header: req.Header.Clone(), Body: body}
 	_ = json.Unmarshal(body, &c.Req)
-	r := h(c)
+	// like a real transport, give up when the request's context ends (http.Client.Timeout) although the hook is still busy
+	var r HookReply
+	done := make(chan HookReply, 1)
+	go func() { done <- h(c) }()
+	select {
+	case r = <-done:
+	case <-req.Context().Done():
+		return nil, &netErr{"verifsim: " + req.Context().Err().Error() + " (Client.Timeout exceeded while awaiting headers)"}
+	}
 	if r.Status == 0 {
 		return nil, &netErr{"verifsim: hook transport error"}
 	}
